@@ -34,8 +34,10 @@ pub fn adversarial(seed: u64, idx: usize, thorough: bool) -> (Vec<u8>, &'static 
     match idx % 16 {
         0 => (crate::c18::nested(Fmt::Json, crate::c18::Shape::Arrays, deep), "deep_json_arrays"),
         1 => (crate::c18::nested(Fmt::Json, crate::c18::Shape::Maps, deep), "deep_json_maps"),
-        2 => (crate::c18::nested(Fmt::Msgpack, crate::c18::Shape::Alternating, deep), "deep_msgpack"),
-        3 => (crate::c18::nested(Fmt::Msgpack, crate::c18::Shape::KeyPosition, deep), "deep_msgpack_key_position"),
+        // MessagePack nesting is cheap to refuse in every mode, so it always goes far
+        // beyond what any stack could take if a limit were missing
+        2 => (crate::c18::nested(Fmt::Msgpack, [crate::c18::Shape::Alternating, crate::c18::Shape::Maps, crate::c18::Shape::Arrays][(idx / 16) % 3], 100_000.max(deep)), "deep_msgpack"),
+        3 => (crate::c18::nested(Fmt::Msgpack, crate::c18::Shape::KeyPosition, 100_000.max(deep)), "deep_msgpack_key_position"),
         4 => (crate::c18::nested(Fmt::Toml, crate::c18::Shape::Arrays, deep), "deep_toml_arrays"),
         5 => (crate::c18::nested(Fmt::Toml, crate::c18::Shape::Maps, deep.min(20_000)), "deep_toml_inline_tables"),
         6 => (crate::c18::nested(Fmt::Yaml, crate::c18::Shape::Alternating, deep_yaml), "deep_yaml_flow"),
